@@ -505,7 +505,7 @@ def make_jobs(tier, seed, build):
     if tier != "quick":
         opsets += [(a, b) for a in OPS for b in OPS]
     else:
-        opsets += [(OPS[0], OPS[3]), (OPS[1], OPS[5]), (OPS[2], OPS[6])]
+        opsets += [(OPS[0], OPS[3]), (OPS[1], OPS[5]), (OPS[2], OPS[6]), (OPS[1], OPS[2]), (OPS[3], OPS[4])]  # incl. the same completer kind with two different masks
     for shell in ("zsh", "bash", "fish", "simple"):
         for n in (0, 1, 2):
             for flags in itertools.product([(False, False), (True, False), (False, True), (True, True)], repeat=n):
